@@ -358,7 +358,7 @@ def dispatch(ck, an):
         ck.check(hi == 1, "PATHCOUNT", "S2.callback-once", subj, fa.loc(c), "the callback is invoked at most once per observer and event", f"callback can run {hi} times", construct=stmt_text(c))
     # after the callback: last_update, callback counter and the observer's own post-hook, once each
     for what, pred in (("last_update", lambda x: isinstance(x, ast.Assign) and ast.unparse(x.targets[0]).endswith(".last_update")),
-                       ("_nr_callbacks", lambda x: isinstance(x, ast.AugAssign) and ast.unparse(x.target).endswith("._nr_callbacks") and isinstance(x.op, ast.Add) and const_value(x.value) == 1),
+                       ("_nr_callbacks", lambda x: _is_increment(fa, x, "_nr_callbacks")),
                        ("observer()", lambda x: isinstance(x, ast.Expr) and isinstance(x.value, ast.Call) and ast.unparse(x.value) == f"{obs}()")):
         sites = [x for x in ast.walk(loop) if pred(x)]
         okp = len(sites) == 1 and cb_calls and fa.reachable_from(cb_calls[0][0], sites[0]) and [cmp_key(p) for p in fa.syntactic_guards(sites[0])] == [cmp_key(p) for p in fa.syntactic_guards(cb_calls[0][0])]
@@ -380,6 +380,17 @@ def dispatch(ck, an):
     ok = any(fg.sym.canon(s.targets[0].slice).endswith(".replace('process_', '')") and fg.sym.canon(s.value).startswith("attr_name") or
              (fg.sym.canon(s.targets[0].slice).count("process_") == 1 and "replace" in fg.sym.canon(s.targets[0].slice)) for s in st)
     ck.check(ok, "ARGFLOW", "S2.subscription-map", fg.f.short, fg.f.loc, "event name -> callback name map strips the process_ prefix", "subscription map is not {EventName: process_EventName}", construct="observed_events[event_name] = attr_name")
+
+
+def _is_increment(fa, x, attr):
+    """`o.attr += 1` or `o.attr = o.attr + 1` (the same increment)"""
+    if isinstance(x, ast.AugAssign):
+        return isinstance(x.target, ast.Attribute) and x.target.attr == attr and isinstance(x.op, ast.Add) and const_value(x.value) == 1
+    if isinstance(x, ast.Assign) and len(x.targets) == 1 and isinstance(x.targets[0], ast.Attribute) and x.targets[0].attr == attr:
+        at = fa.node_of(x).id
+        t = x.targets[0]
+        return fa.sym.ev(x.value, at) == fa.sym.ev(ast.Attribute(value=t.value, attr=attr, ctx=ast.Load()), at) + Poly.const(1)
+    return False
 
 
 # ------------------------------------------------------------------ _next
